@@ -253,6 +253,28 @@ for _k, _l in AMENDS.items():
     for _f, _a, _b in _l:
         assert _a in CHECKS[_k][_f], (_k, _a)
         CHECKS[_k][_f] = CHECKS[_k][_f].replace(_a, _b)
+# round 7: what was added to each check (appended to the note; DESIGN.md section 9, round 7)
+APPENDS = {
+ 'C01': "Round 7: the flags (CollisionFix, AutoKern), MaxRuleLoop and MaxBackup of every pass header are compared with the directives of the pass (every fifth structural program carries directives); a fixed program copies justify.stretch/shrink/step/weight to user attributes under libgraphite2.",
+ 'C04': "Round 7: class programs run over fonts whose format-4 cmap goes through the glyphIdArray, with and without idDelta.",
+ 'C05': "Round 7: mirroring defaults under Bidi = true (mirror.glyph, mirror.isEncoded) are compared for 23 characters, python's unicodedata and a written-out pair table as the oracle.",
+ 'C07': "Round 7: every sixth program reads glyph.breakweight in the attribute values of optional rules (a look-up that only clones can lose).",
+ 'C08': "Round 7: programs are compiled under -c, -v3, -p and combinations; a program that compiles without the options and is refused with them is a violation.",
+ 'C09': "Round 7: accepted programs with an early warning and a feature checked late (justification levels 0-3, ligature components, mirroring, point functions, collision pass); the pre-processor cannot be forked (strace fault injection).",
+ 'C10': "Round 7: justification level 4 in a class, after a class at level 3, and in a rule.",
+ 'C11': "Round 7 corpus: labels of 600 characters and of none, bytes above 0x7F in Macintosh names when renaming, gpath/gpoint without -offsets and with negative values, a point assigned from a point, attributes on deleted items, stretch above 16 bits at level 1, every spelling of a point.",
+ 'C12': "Round 7: family cross_line_boundary_context (the two header bytes are a product of rule lengths, cut off at 255 - the census rows were reclassified); all four justification attribute ids of the header are compared.",
+ 'C15': "Round 7: -v1 is requested too; the break weight of every character is part of what is compared across builds; one program has more than 64K of glyph attribute data that compresses to less.",
+ 'C16': "Round 7: symbol fonts (name records under 3/0) with and without Macintosh records; fixed programs (negative setting value, 65535, features without settings) compiled three times in a chain over three kinds of name table.",
+ 'C17': "Round 7: under -g, a metric of a class (cX.advancewidth, bb.right, bb.top) whose first members the font lacks is the metric of the first glyph the font has.",
+ 'C18': "Round 7: faults in the language table (undefined feature, undefined setting, value without a setting) are located, in the main file or in a file included inside the braces of a group, also after rule lines that start with the line-break item #.",
+ 'C19': "Round 7: scenarios of C09 (early warning with point functions, fork failure) count here too: nothing may be left in /tmp.",
+ 'C20': "Round 7: composites of 3 to 12 components.",
+}
+for _k, _t in APPENDS.items():
+    CHECKS[_k]["note"] = (CHECKS[_k]["note"].rstrip() + " " + _t).strip()
+
+
 def main():
     props = [json.loads(l) for l in open(os.path.join(VERIF, "properties.jsonl"))]
     NA = {}
